@@ -144,7 +144,7 @@ Lemma space_tok_shape s t rest : spec_step s = Some (t, rest) -> s_kind t = SSpa
 Proof.
   intros H K. pose proof (spec_step_shape _ _ _ H) as Sh. destruct Sh; try discriminate K.
   - exists a. split; [reflexivity | eapply span_all; eassumption].
-  - exfalso. unfold spec_number in H1. destruct (num_run _ _ _) as [run rs]. destruct (spec_numeral run) as [[n d]|]; [|discriminate].
+  - exfalso. unfold spec_number in H1. destruct (num_split _) as [run rs]. destruct (spec_numeral run) as [[n d]|]; [|discriminate].
     injection H1 as <- _. discriminate K.
   - exfalso. cbn [s_kind mk] in K. destruct (mem_bytes a spec_keywords); discriminate K.
   - exfalso. destruct (spec_symbol_inv _ _ _ H0) as (x & _ & -> & _). discriminate K.
